@@ -67,14 +67,18 @@ def check(ctx, ws, msb):
     ok = len(rx) == 1 and rx[0].rhs.canon() == want_rx and q.atoms(rx[0]) == sample_guard
     ctx.ob('C50.rx-shift', 'SPIDeviceInterface.current_rx[%s]' % tag, ok, rx[0].loc if rx else None,
            'receive shifter must be %s on the sample edge: %s' % (want_rx, [q.fmt(a) for a in rx]))
-    want_tx = 'Cat(current_tx[1:%d], self.spi.sdo)' % ws if msb else 'Cat(self.spi.sdo, current_tx[0:%d])' % (ws - 1)
-    tx = [a for a in ir.assigns if a.lhs.canon() == want_tx]
+    # the transmit shifter: on the output edge the end bit goes to sdo and the rest moves up (msb first) / down (lsb first)
+    # by one -- written as one Cat(...).eq(current_tx) or as two assignments, the IR has one assignment per target
+    want_tx = ('current_tx[1:%d]' % ws, 'current_tx[0:%d]' % (ws - 1)) if msb else ('current_tx[0:%d]' % (ws - 1), 'current_tx[1:%d]' % ws)
+    want_sdo = 'current_tx[%d:%d]' % (ws - 1, ws) if msb else 'current_tx[0:1]'
+    tx = [a for a in ir.assigns if a.lhs.canon() == want_tx[0]]
     sdo = ir.drivers('self.spi.sdo', exact=True)
-    ok = len(tx) == 1 and len(sdo) == 1 and tx[0].rhs.canon() == 'current_tx' and (cs_atom, cs_pol) in q.atoms(tx[0]) and \
+    ok = len(tx) == 1 and len(sdo) == 1 and tx[0].rhs.canon() == want_tx[1] and sdo[0].rhs.canon() == want_sdo and \
+        q.atoms(sdo[0]) == q.atoms(tx[0]) and (cs_atom, cs_pol) in q.atoms(tx[0]) and \
         q.atoms(tx[0]) != sample_guard and len(q.atoms(tx[0])) == len(sample_guard)
     ctx.ob('C50.tx-shift', 'SPIDeviceInterface.current_tx.shift[%s]' % tag, ok, tx[0].loc if tx else None,
-           'transmit shifter must emit its %s bit to sdo on the output edge (%s <= current_tx): %s' % (
-               'most significant' if msb else 'least significant', want_tx, [q.fmt(a) for a in sdo]))
+           'transmit shifter must emit its %s bit to sdo on the output edge (sdo <= %s, %s <= %s): %s' % (
+               'most significant' if msb else 'least significant', want_sdo, want_tx[0], want_tx[1], [q.fmt(a) for a in sdo + tx]))
     if tx:
         # output edge is the opposite clock edge of the sample edge
         d1 = q.atoms(tx[0]) - sample_guard
